@@ -373,3 +373,25 @@ Theorem C10_raw_header_kept_refuted :
   is_prefix (hdr_attr 157 :: [7]) (hdr_attr 145 :: [7; 1]) = true.
 Proof. exact raw_header_kept_refuted. Qed.
 Print Assumptions C10_raw_header_kept_refuted.
+
+(* ---- a FAILED open_link (C10/CloseSteps.v: failed_open) ---- *)
+(* The driver connected, the connection set-up raised: the code closes the driver and sets self.link = None.  Afterwards
+   there is no link, nothing pending, no armed timer; every later send or arrival changes nothing and transmits nothing
+   (requests with an expected reply are dropped, no timer is armed) until a later open_link succeeds. *)
+Theorem C10_failed_open_leaves_no_link : forall s n evs,
+  Inv s -> link s = None -> Forall sender_event evs ->
+  let s' := failed_open s n in
+  link s' = None /\ pats s' = [] /\ (forall j t, nth_error (timers s') j = Some t -> t_status t <> Armed) /\
+  fst (run Fixed s' evs) = s' /\ Forall (fun o => ~ is_tx o) (snd (run Fixed s' evs)).
+Proof. exact failed_open_leaves_no_link. Qed.
+Print Assumptions C10_failed_open_leaves_no_link.
+
+(* keeping self.link on the failure exit (seeded C10-q) is refuted: the next request is handed to the closed driver and
+   gets a retry timer *)
+Theorem C10_failed_open_keeping_link_refuted :
+  let s := failed_open_keeps_link init true in
+  snd (run Fixed s [Send 1 145 [1] [7] 100]) = [OTx 0 1 0 0] /\
+  pats (fst (run Fixed s [Send 1 145 [1] [7] 100])) = [([157; 7], 0%nat)] /\
+  snd (run Fixed (failed_open init true) [Send 1 145 [1] [7] 100]) = [].
+Proof. exact failed_open_keeping_link_refuted. Qed.
+Print Assumptions C10_failed_open_keeping_link_refuted.
